@@ -793,6 +793,26 @@ func computeDeadEdges(w *World, fn *ssa.Function) {
 		case *ssa.Alloc, *ssa.MakeSlice, *ssa.MakeMap, *ssa.MakeClosure, *ssa.MakeChan:
 			neverNil = true
 		case *ssa.Extract:
+			// the value of a comma-ok lookup, tested behind ok, in a map field whose stored values are never nil; the value
+			// of a range over such a map or list
+			if lk, isLk := y.Tuple.(*ssa.Lookup); isLk && lk.CommaOk && y.Index == 0 {
+				if ref, _ := loadedField(lk.X); ref != "" && w.containerNeverNil(ref) {
+					okAtom := func(a Atom) bool {
+						e, isE := a.X.(*ssa.Extract)
+						return a.Kind == "bool" && isE && e.Tuple == ssa.Value(lk) && e.Index == 1
+					}
+					if w.requires(fn, ifi, okAtom, true) {
+						neverNil = true
+					}
+				}
+			}
+			if nx, isNx := y.Tuple.(*ssa.Next); isNx && y.Index == 2 {
+				if rg, isRg := nx.Iter.(*ssa.Range); isRg {
+					if ref, _ := loadedField(rg.X); ref != "" && w.containerNeverNil(ref) {
+						neverNil = true
+					}
+				}
+			}
 			if call, isCall := y.Tuple.(*ssa.Call); isCall {
 				if g := call.Call.StaticCallee(); g != nil && w.isMain(g) && g.Blocks != nil {
 					if types.TypeString(y.Type(), nil) == "error" {
@@ -807,6 +827,13 @@ func computeDeadEdges(w *World, fn *ssa.Function) {
 							}
 						}
 					}
+				}
+			}
+		case *ssa.UnOp:
+			// an element of a list field whose every element, wherever it is put in, is never nil
+			if ia, isIA := y.X.(*ssa.IndexAddr); isIA && y.Op == token.MUL {
+				if ref, _ := loadedField(ia.X); ref != "" && w.containerNeverNil(ref) {
+					neverNil = true
 				}
 			}
 		case *ssa.Call:
@@ -838,4 +865,87 @@ func constNilAtEveryReturn(g *ssa.Function, idx int) bool {
 		}
 	}
 	return n > 0
+}
+
+// containerNeverNil: ref is a map- or slice-typed field of pointers/interfaces into which, everywhere in the package, only
+// values that cannot be nil are put: a map field is stored only as a new map and updated only with such values; a list
+// field is stored only by the list idioms (empty, append-one, insert-one, delete-one, delete-first) with such elements,
+// and its elements are assigned only such values.
+var containerMemo = map[string]bool{}
+
+func (w *World) containerNeverNil(ref string) bool {
+	if v, ok := containerMemo[ref]; ok {
+		return v
+	}
+	containerMemo[ref] = false
+	never := func(fn *ssa.Function, at ssa.Instruction, v ssa.Value) bool {
+		v = strip(v)
+		if mi, ok := v.(*ssa.MakeInterface); ok {
+			v = strip(mi.X)
+		}
+		switch x := v.(type) {
+		case *ssa.Alloc:
+			return x.Heap || true
+		case *ssa.Call:
+			g := x.Call.StaticCallee()
+			return g != nil && w.isMain(g) && g.Blocks != nil && g.Signature.Results().Len() == 1 && w.nilStatus(g, 0, map[string]bool{}) == nilNever
+		case *ssa.Extract:
+			call, ok := x.Tuple.(*ssa.Call)
+			if !ok {
+				return false
+			}
+			g := call.Call.StaticCallee()
+			if g == nil || !w.isMain(g) || g.Blocks == nil {
+				return false
+			}
+			switch w.nilStatus(g, x.Index, map[string]bool{}) {
+			case nilNever:
+				return true
+			case nilOnlyWithError:
+				return errIndex(call) >= 0 && w.requires(fn, at, errNil(call), true)
+			}
+		}
+		return false
+	}
+	good, n := true, 0
+	for _, fn := range w.All {
+		if !w.isMain(fn) || fn.Blocks == nil {
+			continue
+		}
+		eachInstr(fn, func(in ssa.Instruction) {
+			switch x := in.(type) {
+			case *ssa.MapUpdate:
+				if r, _ := loadedField(x.Map); r == ref {
+					n++
+					if !never(fn, x, x.Value) {
+						good = false
+					}
+				}
+			case *ssa.Store:
+				if fa, ok := x.Addr.(*ssa.FieldAddr); ok && fieldRef(fa) == ref {
+					switch x.Val.Type().Underlying().(type) {
+					case *types.Map:
+						if _, isMk := strip(x.Val).(*ssa.MakeMap); !isMk {
+							good = false
+						}
+					case *types.Slice:
+						kind, elem, _ := classifyListStore(w, x.Val, ref)
+						if kind == "other" || (elem != nil && !never(fn, x, elem)) {
+							good = false
+						}
+						n++
+					default:
+						good = false
+					}
+				}
+				if ia, ok := x.Addr.(*ssa.IndexAddr); ok {
+					if r, _ := loadedField(ia.X); r == ref && !never(fn, x, x.Val) {
+						good = false
+					}
+				}
+			}
+		})
+	}
+	containerMemo[ref] = good && n > 0
+	return containerMemo[ref]
 }
